@@ -1,12 +1,15 @@
 package fam
 
 import (
+	"encoding/json"
 	"errors"
 	"fmt"
+	"strings"
 
 	sdk "github.com/cosmos/cosmos-sdk/types"
 	capabilitytypes "github.com/cosmos/ibc-go/modules/capability/types"
 	clienttypes "github.com/cosmos/ibc-go/v8/modules/core/02-client/types"
+	transfertypes "github.com/cosmos/ibc-go/v8/modules/apps/transfer/types"
 	channeltypes "github.com/cosmos/ibc-go/v8/modules/core/04-channel/types"
 	porttypes "github.com/cosmos/ibc-go/v8/modules/core/05-port/types"
 	ibcexported "github.com/cosmos/ibc-go/v8/modules/core/exported"
@@ -79,6 +82,89 @@ func (s *passStub) WriteAcknowledgement(_ sdk.Context, c *capabilitytypes.Capabi
 func (s *passStub) GetAppVersion(_ sdk.Context, portID, channelID string) (string, bool) {
 	h := s.rec("GetAppVersion", portID, channelID)
 	return fmt.Sprint("v", h), h%2 == 0
+}
+
+// recvPassThrough drives OnRecvPacket of the real middleware wrapped directly around the recording stub (in the
+// application another middleware, blockibc, sits in front and refuses what is not ICS-20 data before the orbiter sees
+// it) with packet data that is NOT an ICS-20 transfer to the orbiter account for ibc-go's strict decoder - garbage,
+// objects with an extra key or a key in another case, numbers for strings, foreign receivers - whatever a more
+// lenient reading would make of it, and whatever the memo says: the wrapped application must be reached with exactly
+// the packet, and its acknowledgement returned as it is (C07).
+func recvPassThrough(r *rng.R, ctx sdk.Context, adapter orbtypes.PayloadAdapter, orbiter string, n int) ([]Failure, int) {
+	var fails []Failure
+	driven := 0
+	q := func(s string) string { b, _ := json.Marshal(s); return string(b) }
+	for i := 0; i < n; i++ {
+		recv := rng.Pick(r, []string{orbiter, orbiter, orbiter, strings.ToUpper(orbiter), "noble1vah82lyr32ge38ax4k6thskf6rtaae0v8psfjs", ""})
+		memo := rng.Pick(r, []string{"", "hello", `{"orbiter":{}}`, `{"forward":{}}`,
+			`{"orbiter":{"forwarding":{"protocol_id":"PROTOCOL_INTERNAL","attributes":{"@type":"/noble.orbiter.controller.forwarding.v1.InternalAttributes","recipient":"noble1vah82lyr32ge38ax4k6thskf6rtaae0v8psfjs"}}}}`})
+		keys := []string{"denom", "amount", "sender", "receiver", "memo"}
+		vals := []string{q("transfer/channel-7/uusdc"), q(fmt.Sprint(1 + r.Intn(5000))), q("noble1vah82lyr32ge38ax4k6thskf6rtaae0v8psfjs"), q(recv), q(memo)}
+		switch r.Intn(7) {
+		case 0:
+			keys, vals = append(keys, rng.Pick(r, []string{"fee", "forward", "x"})), append(vals, rng.Pick(r, []string{`"1"`, "null", "{}"}))
+		case 1:
+			k := r.Intn(len(keys))
+			keys[k] = rng.Pick(r, []string{strings.ToUpper(keys[k]), strings.Title(keys[k])})
+		case 2:
+			vals[1] = rng.Pick(r, []string{"5", "null", "true", "5.5"})
+		case 3:
+			vals[3] = rng.Pick(r, []string{"null", "1", "[]"})
+		case 4: // not an object at all
+			keys, vals = nil, nil
+		case 5:
+			k := r.Intn(len(keys))
+			keys[k] = keys[k] + " "
+		default: // well-formed ICS-20 data to somebody else
+			if recv == orbiter || strings.EqualFold(recv, orbiter) {
+				vals[3] = q("noble1vah82lyr32ge38ax4k6thskf6rtaae0v8psfjs")
+			}
+		}
+		var data []byte
+		if keys == nil {
+			data = rng.Pick(r, [][]byte{[]byte("garbage"), {}, []byte("[1]"), []byte(`"` + orbiter + `"`), []byte("null")})
+		} else {
+			parts := make([]string, len(keys))
+			for j := range keys {
+				parts[j] = q(keys[j]) + ":" + vals[j]
+			}
+			data = []byte("{" + strings.Join(parts, ",") + "}")
+		}
+		// the harness's own reading of "an ICS-20 transfer to the orbiter account": ibc-go's decoder and bech32
+		var d transfertypes.FungibleTokenPacketData
+		if err := transfertypes.ModuleCdc.UnmarshalJSON(data, &d); err == nil {
+			if a, err := sdk.AccAddressFromBech32(d.Receiver); err == nil && a.String() == orbiter {
+				continue
+			}
+		}
+		driven++
+		pkt := channeltypes.NewPacket(data, uint64(1+r.Intn(100)), "transfer", "channel-7", "transfer", rng.Pick(r, []string{"channel-0", "channel-1"}),
+			clienttypes.NewHeight(1, 1000), 0)
+		rel := sdk.AccAddress(r.Bytes(20))
+		direct, inner := &passStub{}, &passStub{}
+		mw := entrypoint.NewIBCMiddleware(inner, inner, adapter)
+		cctx, _ := ctx.CacheContext()
+		var got, want string
+		func() {
+			defer func() {
+				if x := recover(); x != nil {
+					got = fmt.Sprint("panic: ", x)
+				}
+			}()
+			got = string(mw.OnRecvPacket(cctx, pkt, rel).Acknowledgement())
+		}()
+		want = string(direct.OnRecvPacket(cctx, pkt, rel).Acknowledgement())
+		what := ""
+		if fmt.Sprint(inner.calls) != fmt.Sprint(direct.calls) {
+			what = fmt.Sprintf("the wrapped application was reached with %v behind the middleware; handed the packet directly it sees %v", inner.calls, direct.calls)
+		} else if got != want {
+			what = fmt.Sprintf("the middleware answers %q, the wrapped application answered %q", got, want)
+		}
+		if what != "" && len(fails) < 5 {
+			fails = append(fails, Failure{What: "packet data " + string(data) + ": " + what, Sig: "entry-point-not-passed-through", Prop: "C07", Case: map[string]any{"data": string(data)}})
+		}
+	}
+	return fails, driven
 }
 
 var _ porttypes.IBCModule = (*passStub)(nil)
